@@ -248,26 +248,23 @@ Section Ops.
   Variable uj : str -> str.
   Variable c : cfg.
 
-  Lemma get_text_fst r : fst (get_text r) = fst (get_body r).
-  Proof. unfold get_text. destruct (get_body r) as [r1 [b|e]]; reflexivity. Qed.
-
-  (* the encoding .text uses: the Content-Type's charset, else default_body_encoding *)
-  Definition body_encoding (h : hdrs) : str :=
-    match charset_of h with Some ((_ :: _) as cs) => cs | _ => UTF8 end.
-
-  Lemma set_text_cases t r :
-    (exists x, set_text t r = (r, Some x)) \/
-    (exists b, set_text t r = (set_body b r, None) /\ encode (body_encoding (r_headers r)) t = Ok b).
+  Lemma get_text_fst r : fst (get_text c r) = fst (get_body r) \/ fst (get_text c r) = r.
   Proof.
-    unfold set_text, body_encoding. destruct (charset_of (r_headers r)) as [[|x cs]|]; cbn [truthy].
-    - destruct (encode UTF8 t) as [b|e]; [right; exists b; split; reflexivity|left; exists e; reflexivity].
-    - destruct (encode (x :: cs) t) as [b|e]; [right; exists b; split; reflexivity|left; exists e; reflexivity].
-    - destruct (encode UTF8 t) as [b|e]; [right; exists b; split; reflexivity|left; exists e; reflexivity].
+    unfold get_text. destruct (text_encoding c (r_headers r)); [left|right; reflexivity].
+    destruct (get_body r) as [r1 [b|e]]; reflexivity.
   Qed.
 
-  Lemma set_text_inv t r : cl_inv r -> cl_inv (fst (set_text t r)).
+  Lemma set_text_cases t r :
+    (exists x, set_text c t r = (r, Some x)) \/
+    (exists b e, set_text c t r = (set_body b r, None) /\ text_encoding c (r_headers r) = Some e /\ encode e t = Ok b).
   Proof.
-    intros Hi. destruct (set_text_cases t r) as [[x ->] | [b [-> _]]]; cbn [fst]; [exact Hi|apply set_body_inv].
+    unfold set_text. destruct (text_encoding c (r_headers r)) as [e|]; [|left; eexists; reflexivity].
+    destruct (encode e t) as [b|x] eqn:Ee; [right; exists b, e; split; [reflexivity|split; [reflexivity|exact Ee]]|left; exists x; reflexivity].
+  Qed.
+
+  Lemma set_text_inv t r : cl_inv r -> cl_inv (fst (set_text c t r)).
+  Proof.
+    intros Hi. destruct (set_text_cases t r) as [[x ->] | [b [e [-> _]]]]; cbn [fst]; [exact Hi|apply set_body_inv].
   Qed.
 
   Lemma write_text_inv t r : cl_inv r -> cl_inv (fst (write_text t r)).
@@ -317,6 +314,16 @@ Section Ops.
     pose proof (clvals_hset_other N_CMD5 (md5b64 b) h1 N_CMD5_ne) as P2.
     destruct (hset N_CMD5 (md5b64 b) h1) as [h2 e2]. cbn [fst] in *.
     apply inv_keep_headers; [exact H1|]. rewrite P2. exact P1.
+  Qed.
+
+  Lemma clvals_md5_etag_of b m h : clvals (fst (md5_etag_of md5b64 b m h)) = clvals h.
+  Proof.
+    unfold md5_etag_of.
+    set (v := etag_quote (strip_by (fun x => x =? 61) (md5b64 b))).
+    pose proof (clvals_hset_other N_ETAG v h N_ETAG_ne) as P1.
+    destruct (hset N_ETAG v h) as [h1 e1]. cbn [fst] in P1.
+    destruct e1 as [e|]; cbn [fst]; [exact P1|]. destruct m; [|exact P1].
+    rewrite (clvals_hset_other N_CMD5 (md5b64 b) h1 N_CMD5_ne). exact P1.
   Qed.
 
   (* the constructor, when it is handed an app_iter and a header list (copy does that) *)
@@ -401,9 +408,9 @@ Section Ops.
     - apply clvals_hset_plain_other. exact N_CE_ne.
   Qed.
 
-  Lemma set_text_resets t r r0 : set_text t r = (r0, None) -> cl_inv r0.
+  Lemma set_text_resets t r r0 : set_text c t r = (r0, None) -> cl_inv r0.
   Proof.
-    intros H. destruct (set_text_cases t r) as [[x E]|[b [E _]]]; rewrite E in H; [discriminate|].
+    intros H. destruct (set_text_cases t r) as [[x E]|[b [e [E _]]]]; rewrite E in H; [discriminate|].
     injection H as <-. apply set_body_inv.
   Qed.
 
@@ -412,9 +419,10 @@ Section Ops.
     intros Hraw Hi. unfold step', step. destruct o.
     - apply set_body_inv.
     - apply set_body_inv.
-    - pose proof (set_text_inv t r Hi) as H. destruct (set_text t r). exact H.
+    - pose proof (set_text_inv t r Hi) as H. destruct (set_text c t r). exact H.
     - pose proof (get_body_inv r Hi) as H. destruct (get_body r). exact H.
-    - pose proof (get_body_inv r Hi) as H. rewrite <- get_text_fst in H. destruct (get_text r). exact H.
+    - pose proof (get_body_inv r Hi) as H. destruct (get_text_fst r) as [E|E]; destruct (get_text c r); cbn [fst] in *;
+        rewrite E; assumption.
     - pose proof (write_bytes_spec b r Hi) as [H _]. destruct (write_bytes b r). exact H.
     - pose proof (write_text_inv t r Hi) as H. destruct (write_text t r). exact H.
     - apply set_app_iter_inv.
@@ -434,6 +442,9 @@ Section Ops.
       + apply inv_keep_headers; [exact Hi|]. apply clvals_hdel_other. exact K_LOC_ne.
     - destruct n as [x|]; cbn [fst]; [exfalso; apply Hraw; exact I|apply inv_cl_del].
     - cbn [fst]. apply call_inv. exact Hi.
+    - pose proof (clvals_md5_etag_of b set_md5 (r_headers r)) as H.
+      destruct (md5_etag_of md5b64 b set_md5 (r_headers r)) as [h e]. cbn [fst] in *. apply inv_keep_headers; assumption.
+    - cbn [fst]. apply (inv_keep r); [exact Hi|reflexivity|reflexivity|right; reflexivity].
   Qed.
 
   Theorem run_inv ops : Forall (fun o => ~ raw_edit o) ops ->
